@@ -129,6 +129,8 @@ type Arena struct {
 	Name  string
 	T     types.Type
 	Slots []*Object
+	Fn    string   // only Alloc sites in functions whose name contains this allocate here
+	Next  *term.T  // allocation counter (state variable)
 }
 
 type Unsupported struct{ Msg string }
@@ -363,6 +365,27 @@ func (m *Machine) merge(c *term.T, a, b Value) Value {
 				out.E[i] = m.merge(c, x.E[i], y.E[i])
 			}
 			return out
+		}
+	case *PtrV:
+		if y, ok := b.(*PtrV); ok {
+			ar := x.Arena
+			if ar == nil {
+				ar = y.Arena
+			}
+			if ar != nil && (x.Arena == ar || x.IsNil()) && (y.Arena == ar || y.IsNil()) && len(x.Sub) == 0 && len(y.Sub) == 0 {
+				xi, yi := m.F.IntC(-1), m.F.IntC(-1)
+				if !x.IsNil() {
+					xi = x.Idx
+				}
+				if !y.IsNil() {
+					yi = y.Idx
+				}
+				idx := m.F.Ite(c, xi, yi)
+				if idx.IsConst() && idx.I == -1 {
+					return &PtrV{}
+				}
+				return &PtrV{Arena: ar, Idx: idx}
+			}
 		}
 	case *IfaceV:
 		if y, ok := b.(*IfaceV); ok {
